@@ -240,6 +240,7 @@ def run(rep: Report, tier: str):
         "parameters), structural check of the installed closures, and completeness of the rebound entry-point set against "
         "the pickle module's public API, with torch's source parsed for which attributes its load path uses."
     )
+    rep.rule("C07.sequence-worlds", "every global resolved through the four entry points, at nesting depth 0-3, is in the built-in allowlist or the current additions", 1)
     rep.rule("C07.find_class", "resolver dominated by both allowlist tests on the resolved (module, name); no other resolving method", 5)
     rep.rule("C07.closures", "installed hooks return FicklingMLUnpickler(data, also_allow).load() on every path, nothing else sees the data", 2)
     rep.rule("C07.entry-points", "load, loads and Unpickler of pickle and _pickle are all mediated", 6)
@@ -251,6 +252,7 @@ def run(rep: Report, tier: str):
     from . import c11 as _c11
 
     tmp = Report("C11", tier)
+    _c11.SKIP_SEQUENCE_WORLDS = True
     _c11.run(tmp, tier)
     rep.rule("C07.allowlist-scope", "the allowlist consulted by find_class is the built-in table plus this activation's additions only (C11's ownership rules)", 3)
     for f in tmp.findings:
@@ -258,3 +260,7 @@ def run(rep: Report, tier: str):
     for i in tmp.instances:
         if i.ok:
             rep.ok("C07.allowlist-scope", i.construct, i.what, i.where, i.nontrivial)
+    # interpreted last: the structural rules above stand on their own if a sequence cannot be interpreted
+    from ..envworlds import C07_KEYS, report_sequence_worlds
+
+    report_sequence_worlds(repo, rep, "C07.sequence-worlds", tier, C07_KEYS, nested=True)
